@@ -240,7 +240,17 @@ func propC04(c C04Case) error {
 		if x.RawData != wantRaw {
 			return fmt.Errorf("%s(%q): RawData %q, want the trimmed text after msg= %q", who, line, x.RawData, wantRaw)
 		}
+		// (twice: the map the first call returned is the caller's — it is emptied and scribbled on, as a caller that
+		// reshapes it for its own output does — and the second call reports the header all the same)
+		first := x.ToMapStr()
+		for k := range first {
+			delete(first, k)
+		}
+		first["sequence"], first["record_type"], first["extra"] = "0", "edited", "x"
 		ms := x.ToMapStr()
+		if _, has := ms["extra"]; has {
+			return fmt.Errorf("%s(%q): what the caller wrote into the map of an earlier ToMapStr call shows up in the next one: %v", who, line, ms)
+		}
 		if ms["record_type"] != typ.String() {
 			return fmt.Errorf("%s(%q): ToMapStr record_type=%v want %q", who, line, ms["record_type"], typ.String())
 		}
